@@ -87,6 +87,10 @@ func runLoader(c *drv.Ctx) error {
 	for i := 0; i < ne; i++ {
 		shape := ""
 		switch {
+		case i%8 == 5 || i%8 == 4:
+			shape = "prefix"
+		case i%8 == 3:
+			shape = "empty"
 		case i%8 == 6:
 			shape = "witness"
 		case i%8 == 7:
